@@ -360,7 +360,7 @@ def model_commands(model):
                     v = {"r": "true" if v else "false"}
                 args.append([k, v])
             if node.get("meta"):
-                args.append(["Metadata", {"t": node["meta"]}])
+                args.insert(node.get("meta_pos", len(args)) % (len(args) + 1), ["Metadata", {"t": node["meta"]}])
         cmds.append({"name": node["name"], "cmd": node["cmd"], "args": args})
     first = [n["name"] for n in model["nodes"] if n["cmd"] == "EEMSRead"][0]
     writers = [
